@@ -327,8 +327,10 @@ impl LuaEngine {
         };
         
         if is_pcall {
-            // redis.pcall: Return nil, script continues
-            Ok(LuaValue::Nil)
+            // redis.pcall: return the error as the table {err = msg}, script continues
+            let table = _lua_ctx.create_table()?;
+            table.set("err", formatted_error)?;
+            Ok(LuaValue::Table(table))
         } else {
             // redis.call: Abort script execution immediately
             Err(mlua::Error::RuntimeError(format!("REDIS_CALL_ABORT:{}", formatted_error)))
@@ -384,6 +386,13 @@ impl LuaEngine {
                 RespFrame::BulkString(Some(Arc::new(s.as_bytes().to_vec())))
             }
             LuaValue::Table(table) => {
+                // {err = msg} is an error reply, {ok = msg} a status reply
+                if let Ok(LuaValue::String(s)) = table.get::<LuaValue>("err") {
+                    return RespFrame::Error(Arc::new(s.as_bytes().to_vec()));
+                }
+                if let Ok(LuaValue::String(s)) = table.get::<LuaValue>("ok") {
+                    return RespFrame::SimpleString(Arc::new(s.as_bytes().to_vec()));
+                }
                 // Convert Lua table to Redis array
                 let mut items = Vec::new();
                 for i in 1.. {
@@ -394,11 +403,7 @@ impl LuaEngine {
                     }
                 }
                 
-                if items.is_empty() {
-                    RespFrame::BulkString(None)
-                } else {
-                    RespFrame::Array(Some(items))
-                }
+                RespFrame::Array(Some(items))
             }
             _ => RespFrame::BulkString(None),
         }
